@@ -372,6 +372,45 @@ let () =
                 else if List.exists (fun x -> x) mk then ok id "+marker_outside_code"
                 else ok id "accepted_no_marker_in_output"
       end);
+  reg "codectx_hist" (fun f ->
+      let id = f.(1) in
+      let text = str f 2 and wire = str f 4 in
+      let markers = List.map bytes_of_string (List.filter (fun s -> s <> "") (String.split_on_char ',' (str f 5))) in
+      let outcome = f.(6) and out = bytes_of_hex f.(7) in
+      if outcome = "parseerr" then ok id "parse_error"
+      else if outcome <> "ok" && outcome <> "execerr" then
+        ok id ("refused:" ^ outcome)
+      else begin
+        (* the harness and the specification agree on where the markers are *)
+        let mk = V.marked markers out in
+        let spans = if f.(8) = "-" then [] else List.map (fun s -> Scanf.sscanf s "%d:%d" (fun a b -> (a, b))) (String.split_on_char ',' f.(8)) in
+        let covered i = List.exists (fun (a, b) -> i >= a && i < a + b) spans in
+        let agree = List.for_all (fun x -> x) (List.mapi (fun i m -> m = covered i) mk) in
+        if not agree then mismatch id "marker_positions"
+        else
+          match V.c02_code_clause markers out with
+          | Some (off, cls) ->
+            let inf = analyse text in
+            specfail id (Printf.sprintf "untrusted_bytes_in_code_position:%s@%d%s" (class_name cls) (int_of_n off)
+                           (tag_finding [("D13", cls = V.PScript && finding_d13 inf);
+                                         ("D44", (match cls with V.PScript | V.PRawtext _ -> finding_d44 inf | _ -> false));
+                                         ("D1", finding_d1 inf);
+                                         ("D48", (match cls with V.PAttrValue _ -> finding_d48 inf | _ -> false))]))
+          | None ->
+            match V.c02_origin_clause markers out with
+            | Some (e, a) ->
+              let inf = analyse text in
+              let e = string_of_bytes e and a = string_of_bytes a in
+              specfail id (Printf.sprintf "untrusted_bytes_in_origin_of_code_loading_url:%s.%s%s" e a
+                             (tag_finding [("D3", e = "link" && a = "href" && finding_d3 inf); ("D4", finding_d4 inf a); ("D1", finding_d1 inf); ("D48", finding_d48 inf)]))
+            | None ->
+              match None with
+              | Some m -> mismatch id m
+              | None ->
+                if outcome = "execerr" then ok id "+refused_at_execution"
+                else if List.exists (fun x -> x) mk then ok id "+marker_outside_code"
+                else ok id "accepted_no_marker_in_output"
+      end);
   reg "jsurl" (fun f ->
       let id = f.(1) in
       let text = str f 2 and wire = str f 3 in
